@@ -26,9 +26,13 @@ Record elem := { el_act : act; el_start : list emit; el_in : list emit; el_end :
 (* The module itself.  Besides its callbacks it may do ONE of two further things:
    spawn (in at_sim_start(0)) a task that sleeps d+1 ns and then sends [h_task], or
    shut itself down (optionally restarting after r ns) when handle_message sees the
-   payload [trig].  A module never does both: a shutdown drops the tokio runtime and
-   with it the timer slot, which is the subject of C05/C09, not of C14. *)
-Inductive extra := XNone | XTimer (d : N) | XShut (trig : N) (restart : option N).
+   payload [trig], or panic at the end of one callback (its stereotype has on_panic_catch,
+   so Harness::catch swallows the panic and deactivates the module): [XPanic 0 x] in
+   handle_message of payload x, [XPanic 1 st] in at_sim_start(st), [XPanic 2 _] in at_sim_end.
+   A module does at most one of the three: a shutdown drops the tokio runtime and with it the
+   timer slot, and a panic skips the poll of woken tasks (subjects of C05/C09/C13, not of C14).
+   Uncaught panics are outside C14. *)
+Inductive extra := XNone | XTimer (d : N) | XShut (trig : N) (restart : option N) | XPanic (site trig : N).
 
 Record handler := { h_stages : N; h_extra : extra;
   h_start : list emit; h_msg : list emit; h_end : list emit; h_task : list emit }.
@@ -49,7 +53,8 @@ Inductive hook :=
 | HReset                         (* Module::reset *)
 | HSched (delay id : N)          (* schedule_in *)
 | HSend (delay id : N)           (* send_in(.., "out", ..) *)
-| HShut (restart : option N).    (* current().shutdown() / shutdow_and_restart_in(r) *)
+| HShut (restart : option N)     (* current().shutdown() / shutdow_and_restart_in(r) *)
+| HPanic.                        (* the callback panics (caught by the stereotype) *)
 
 Record entry := { en_mod : N; en_who : who; en_hook : hook }.
 
@@ -87,20 +92,22 @@ Definition fes_fetch (f : fes) : option (N * fev * fes) :=
   end.
 
 (* ---- state local to one runtime event: call log of the current bracket, BUF_CTX.events,
-   remaining send budget of the scripts, ModuleContext::shutdown_task ---- *)
-Record es := { lg : list entry; buf : list (N * fev); bud : N; shut : option (option N) }.
+   remaining send budget of the scripts, ModuleContext::shutdown_task, "Harness::catch saw a
+   panic and cleared ctx.active" ---- *)
+Record es := { lg : list entry; buf : list (N * fev); bud : N; shut : option (option N); dead : bool }.
 
 Definition peer (m : N) : N := if m =? 0 then 1 else 0.
 
 Definition say (m : N) (w : who) (h : hook) (s : es) : es :=
   {| lg := lg s ++ [{| en_mod := m; en_who := w; en_hook := h |}];
-     buf := buf s; bud := bud s; shut := shut s |}.
+     buf := buf s; bud := bud s; shut := shut s; dead := dead s |}.
 
 (* message/api.rs schedule_in -> buf_schedule_at: HandleMessageEvent for the current module.
    send_in -> buf_send_at: a delayed send buffers a MessageExitingConnection; an immediate one
    walks the (channel-less) gate chain inline and buffers the HandleMessageEvent of the peer.
-   (The sender-active check of handle_with_sink is vacuous for the inline case: buffers are
-   only flushed for brackets that run on an active module.)
+   handle_with_sink drops the message when the owner of the first gate is inactive: for the
+   inline case that happens exactly when a caught panic has just deactivated the sender (the
+   other brackets whose buffers are flushed run on an active module).
    The scripts share a send budget so that every run is finite. *)
 Definition pending (now m : N) (e : emit) : N * fev :=
   if e_peer e then
@@ -112,8 +119,8 @@ Definition emit1 (now m : N) (w : who) (e : emit) (s : es) : es :=
   if bud s =? 0 then s else
   {| lg := lg s ++ [{| en_mod := m; en_who := w;
                        en_hook := if e_peer e then HSend (e_delay e) (e_id e) else HSched (e_delay e) (e_id e) |}];
-     buf := buf s ++ [pending now m e];
-     bud := bud s - 1; shut := shut s |}.
+     buf := (if dead s && e_peer e && (e_delay e =? 0) then buf s else buf s ++ [pending now m e]);
+     bud := bud s - 1; shut := shut s; dead := dead s |}.
 
 Definition emits (now m : N) (w : who) (l : list emit) (s : es) : es :=
   fold_left (fun s e => emit1 now m w e s) l s.
@@ -147,6 +154,25 @@ Fixpoint incoming_downstream (now m : N) (i : nat) (els : list elem) (s : es) : 
 (* ---- events.rs: the ModuleRef entry points ---- *)
 Inductive kind := KMsg (x : N) | KWake | KStart (stage : N) | KEnd.
 
+(* does the callback of this event end in a (caught) panic? *)
+Definition panics (h : handler) (k : kind) (msg : option N) : bool :=
+  match h_extra h with
+  | XPanic site trig =>
+    match k with
+    | KMsg _ => (site =? 0) && (match msg with Some y => y =? trig | None => false end)
+    | KStart stage => (site =? 1) && (stage =? trig)
+    | KEnd => site =? 2
+    | KWake => false
+    end
+  | _ => false
+  end.
+
+(* Harness::catch: the unwind is swallowed (on_panic_catch) and ctx.active is cleared *)
+Definition panic_if (b : bool) (m : N) (s : es) : es :=
+  if b then let s1 := say m Handler HPanic s in
+            {| lg := lg s1; buf := buf s1; bud := bud s1; shut := shut s1; dead := true |}
+  else s.
+
 (* what runs inside Harness::exec: the handler callback ... *)
 Definition handler_part (now m : N) (h : handler) (k : kind) (msg : option N) (s : es) : es :=
   match k with
@@ -159,22 +185,22 @@ Definition handler_part (now m : N) (h : handler) (k : kind) (msg : option N) (s
         if y =? trig then
           let s2 := say m Handler (HShut r) s1 in
           {| lg := lg s2; buf := buf s2; bud := bud s2;
-             shut := Some (match r with Some d => Some (now + d) | None => None end) |}
+             shut := Some (match r with Some d => Some (now + d) | None => None end); dead := dead s2 |}
         else s1
-      | _ => s1
+      | _ => panic_if (panics h k msg) m s1
       end
     | None => s                                   (* Harness::exec(|| {}) *)
     end
   | KWake => s
-  | KStart stage => emits now m Handler (h_start h) (say m Handler (HSimStart stage now) s)
-  | KEnd => emits now m Handler (h_end h) (say m Handler (HSimEnd now) s)
+  | KStart stage => panic_if (panics h k msg) m (emits now m Handler (h_start h) (say m Handler (HSimStart stage now) s))
+  | KEnd => panic_if (panics h k msg) m (emits now m Handler (h_end h) (say m Handler (HSimEnd now) s))
   end.
 
 (* ... followed by yield_now: a task woken by activate() is polled *)
 Definition poll_tasks (now m : N) (h : handler) (woken : bool) (s : es) : es :=
   if woken then emits now m Task (h_task h) (say m Task (HTask now) s) else s.
 
-(* upstream; Harness::exec(callback); downstream *)
+(* upstream; Harness::exec(callback); downstream -- also after a caught panic *)
 Definition bracket (now m : N) (c : modcfg) (woken : bool) (k : kind) (s : es) : es :=
   let '(msg, s1) := incoming_upstream now m 0 (m_stack c)
                       (match k with KMsg x => Some x | _ => None end) s in
@@ -185,7 +211,7 @@ Definition bracket (now m : N) (c : modcfg) (woken : bool) (k : kind) (s : es) :
 Record brk := { b_mod : N; b_kind : kind; b_time : N; b_woken : bool; b_log : list entry }.
 
 Definition run_bracket (now m : N) (c : modcfg) (woken : bool) (k : kind) (s : es) : es * brk :=
-  let s' := bracket now m c woken k {| lg := []; buf := buf s; bud := bud s; shut := shut s |} in
+  let s' := bracket now m c woken k {| lg := []; buf := buf s; bud := bud s; shut := shut s; dead := dead s |} in
   (s', {| b_mod := m; b_kind := k; b_time := now; b_woken := woken; b_log := lg s' |}).
 
 Definition handle_message now m c woken (x : N) s := run_bracket now m c woken (KMsg x) s.
@@ -195,9 +221,11 @@ Definition at_sim_end now m c woken s := run_bracket now m c woken KEnd s.
 
 Definition stage_list (n : N) : list N := map N.of_nat (seq 0 (N.to_nat n)).
 
-(* for stage in 0..num_sim_start_stages() { at_sim_start(stage)? } *)
+(* for stage in 0..num_sim_start_stages() { at_sim_start(stage)?; if !active { break } } *)
 Definition module_restart (now m : N) (c : modcfg) (s : es) : es * list brk :=
-  fold_left (fun acc stage => let '(s1, b) := at_sim_start now m c false stage (fst acc) in (s1, snd acc ++ [b]))
+  fold_left (fun acc stage =>
+               if dead (fst acc) then acc
+               else let '(s1, b) := at_sim_start now m c false stage (fst acc) in (s1, snd acc ++ [b]))
             (stage_list (h_stages (m_handler c))) (s, []).
 
 (* ---- the simulation ---- *)
@@ -224,14 +252,15 @@ Definition activate (now : N) (x : mst) : bool * mst :=
   | None => (false, x)
   end.
 
-Definition es0 (b : N) : es := {| lg := []; buf := []; bud := b; shut := None |}.
+Definition es0 (b : N) : es := {| lg := []; buf := []; bud := b; shut := None; dead := false |}.
 
 Definition fes_flush (ps : list (N * fev)) (f : fes) : fes := fold_left (fun f p => fes_add (fst p) (snd p) f) ps f.
 
-(* module.deactivate(rt) [schedules the wake-up of a newly registered timer], then buf_process:
+(* [a caught panic has cleared ctx.active;] module.deactivate(rt) [schedules the wake-up of a newly registered timer], then buf_process:
    drain the buffered events into the event set in order, then handle a requested shutdown
    (deactivate, Module::reset, schedule the restart). *)
-Definition finish_event (w : world) (m : N) (x : mst) (s : es) (its : list item) (wake : option N) : world * list item :=
+Definition finish_event (w : world) (m : N) (x0 : mst) (s : es) (its : list item) (wake : option N) : world * list item :=
+  let x := if dead s then {| active := false; timer := timer x0 |} else x0 in
   let f0 := match wake with Some d => fes_add d (EvWake m) (w_fes w) | None => w_fes w end in
   let f1 := fes_flush (buf s) f0 in
   match shut s with
@@ -270,10 +299,11 @@ Definition process (sc : script) (w : world) (t : N) (ev : fev) : world * list i
     finish_event w m {| active := true; timer := timer ms |} s (map IBrk bs) None
   end.
 
-(* SimLifecycle::at_sim_start: stages outermost, modules in tree order *)
+(* SimLifecycle::at_sim_start: stages outermost, modules in tree order; a module that an
+   earlier stage deactivated is skipped *)
 Definition start_one (sc : script) (stage m : N) (acc : world * list item) : world * list item :=
   let '(w, its) := acc in
-  if stage <? h_stages (m_handler (cfg sc m)) then
+  if (stage <? h_stages (m_handler (cfg sc m))) && active (mstate w m) then
     let '(woken, ms) := activate 0 (mstate w m) in
     let '(s, b) := at_sim_start 0 m (cfg sc m) woken stage (es0 (w_bud w)) in
     let reg := timer_reg 0 (cfg sc m) stage in
@@ -293,7 +323,8 @@ Definition end_one (sc : script) (now m : N) (acc : world * list item) : world *
   let '(w, its) := acc in
   let '(woken, ms) := activate now (mstate w m) in
   let '(s, b) := at_sim_end now m (cfg sc m) woken (es0 (w_bud w)) in
-  (set_mst {| w_fes := w_fes w; w_bud := bud s; w_m0 := w_m0 w; w_m1 := w_m1 w |} m ms, its ++ [IBrk b]).
+  (set_mst {| w_fes := w_fes w; w_bud := bud s; w_m0 := w_m0 w; w_m1 := w_m1 w |} m
+           (if dead s then {| active := false; timer := timer ms |} else ms), its ++ [IBrk b]).
 
 Definition sim_end (sc : script) (now : N) (w : world) : world * list item :=
   end_one sc now 1 (end_one sc now 0 (w, [])).
@@ -339,8 +370,9 @@ Definition flat_log (sc : script) : list entry := flat_map item_log (trace sc).
    elem   := blob[ act k  lp(start emits) lp(in emits) lp(end emits) ]   act mod 3: 0 pass 1 modify(+k) 2 consume
    emits  := (peer delay id)*                         peer odd = send to "out", even = schedule to self
    mod    := mode nOwn blob*  blob[ handler ]         mode mod 4: 0 default stack, 1 default++own, 2 own, 3 own++default
-   handler:= stages(mod 4) xkind(mod 3: 0 none 1 timer 2 shutdown) xa xb xc  lp(start) lp(msg) lp(end) lp(task)
+   handler:= stages(mod 4) xkind(mod 4: 0 none 1 timer 2 shutdown 3 panic) xa xb xc  lp(start) lp(msg) lp(end) lp(task)
              timer: sleeps xa+1 ns;  shutdown: trigger payload xa, restart iff xb odd, after xc ns
+             panic (caught): xb mod 3 = 0 in handle_message of payload xa, 1 in at_sim_start(xa), 2 in at_sim_end
    inj    := kind dst time id                         kind odd = handle_message_on, even = add_message_onto(port) *)
 Definition nxt (l : list N) : N * list N := match l with [] => (0, []) | x :: r => (x, r) end.
 
@@ -373,8 +405,9 @@ Definition dec_handler (b : list N) : handler :=
   let '(xa, r) := nxt r in let '(xb, r) := nxt r in let '(xc, r) := nxt r in
   let '(s, r) := take_lp r in let '(g, r) := take_lp r in let '(e, r) := take_lp r in let '(t, _) := take_lp r in
   {| h_stages := st mod 4;
-     h_extra := (if xk mod 3 =? 0 then XNone else if xk mod 3 =? 1 then XTimer xa
-                 else XShut xa (if N.odd xb then Some xc else None));
+     h_extra := (if xk mod 4 =? 0 then XNone else if xk mod 4 =? 1 then XTimer xa
+                 else if xk mod 4 =? 2 then XShut xa (if N.odd xb then Some xc else None)
+                 else XPanic (xb mod 3) xa);
      h_start := triples s; h_msg := triples g; h_end := triples e; h_task := triples t |}.
 
 (* Module::stack(default) *)
@@ -420,6 +453,7 @@ Definition enc_entry (e : entry) : list N :=
   | HSend d i => [10; d; i]
   | HShut None => [11; 0; 0]
   | HShut (Some d) => [11; 1; d]
+  | HPanic => [12; 0; 0]
   end.
 
 Definition run (input : list N) : list N :=
